@@ -267,6 +267,37 @@ pub fn dedicated_inputs() -> Vec<(&'static str, Mods, usize)> {
         )],
         8,
     ));
+    // a generated vftable struct imported by name, shadowing a user type of the same name
+    // reachable through a module import (found by a seeding sub-agent on the unchanged tree)
+    out.push((
+        "use-of-generated-vftable-by-name",
+        vec![
+            (ItemPath::from("kd_i"), Module::new().with_definitions([ItemDefinition::new((Visibility::Public, "Foo"), TypeDefinition::new([vt("f")]))])),
+            (ItemPath::from("kd_j"), Module::new().with_definitions([ItemDefinition::new((Visibility::Public, "FooVftable"), TypeDefinition::new([TypeStatement::field((Visibility::Public, "x"), Type::ident("u32"))]))])),
+            (
+                ItemPath::from("kd_k"),
+                Module::new()
+                    .with_uses([ItemPath::from("kd_i::FooVftable"), ItemPath::from("kd_j")])
+                    .with_definitions([ItemDefinition::new((Visibility::Public, "X"), TypeDefinition::new([TypeStatement::field((Visibility::Public, "p"), Type::ident("FooVftable").const_pointer())]))]),
+            ),
+        ],
+        4,
+    ));
+    // the same through module imports only: kd_l (generated) is searched before kd_j (user type)
+    out.push((
+        "generated-vftable-in-earlier-module-import",
+        vec![
+            (ItemPath::from("kd_l"), Module::new().with_definitions([ItemDefinition::new((Visibility::Public, "Foo"), TypeDefinition::new([vt("f")]))])),
+            (ItemPath::from("kd_j2"), Module::new().with_definitions([ItemDefinition::new((Visibility::Public, "FooVftable"), TypeDefinition::new([TypeStatement::field((Visibility::Public, "x"), Type::ident("u32"))]))])),
+            (
+                ItemPath::from("kd_n"),
+                Module::new()
+                    .with_uses([ItemPath::from("kd_l"), ItemPath::from("kd_j2")])
+                    .with_definitions([ItemDefinition::new((Visibility::Public, "X"), TypeDefinition::new([TypeStatement::field((Visibility::Public, "p"), Type::ident("FooVftable").const_pointer())]))]),
+            ),
+        ],
+        8,
+    ));
     // user type named like a generated vftable struct, duplicates: consistently rejected
     out.push((
         "user-type-named-like-vftable",
@@ -508,7 +539,10 @@ pub fn run(ctx: &mut Ctx) {
         }
         let mut seen = BTreeSet::new();
         for (sig, detail) in r.bad {
-            let sig = if name == "dedicated/reference-to-generated-vftable" { format!("{sig}/reference-to-generated-vftable") } else { sig };
+            let sig = match name.strip_prefix("dedicated/") {
+                Some(d) if d.contains("generated-vftable") => format!("{sig}/{d}"),
+                _ => sig,
+            };
             if seen.insert(sig.clone()) {
                 ctx.violation(&sig, &detail, json!({"set": name, "ptrw": ptrw, "modules": case_json(mods, *ptrw)["modules"]}));
             }
